@@ -297,7 +297,7 @@ def check_zero(case, st):
     if case["family"] == "quadratic":
         keys = [(0,), (1,), (2,), (0, 1), (0, 2), (1, 2)]
         D = {k: v for k, v in zip(keys, case["coefs"]) if v}
-        forms = [("QUSOMatrix", "spin", True, s.anneal_quso), ("PUSOMatrix", "spin", False, s.anneal_puso)]
+        forms = [("QUSOMatrix", "spin", True, s.anneal_quso), ("PUSOMatrix", "spin", False, s.anneal_puso), ("QUSOMatrix-rev", "spin", True, s.anneal_quso)]
     else:
         keys = [(0, 1, 2), (0,), (1,), (0, 1), (1, 2)]
         D = {k: v for k, v in zip(keys, case["coefs"]) if v}
@@ -310,7 +310,8 @@ def check_zero(case, st):
     E = rp.tt(D, labels, True)
     # boolean forms of the same function (exact: dyadic coefficients)
     for cont, kind, deg2, f in forms:
-        M = gen.build(cont, D)
+        # "-rev": the same terms inserted in the opposite order (the kernel's neighbour lists follow insertion order)
+        M = gen.build(cont, D) if not cont.endswith("-rev") else gen.build(cont[:-4], dict(reversed(list(D.items()))))
         for nsweeps, Ts in ((1, [0.0]), (2, [0.0, 0.0])):
             for start in range(1 << N):
                 init = rp.assignment(start, labels, True)
